@@ -258,6 +258,25 @@ Proof.
         apply bytes_eqb_eq in He. intros Hc. inversion Hc; subst. reflexivity.
 Qed.
 
+(* a submission that is deduplicated against a leaf created by another submission (possibly
+   through another chain, possibly still pending) has run the issuer loop all the same: ITS chain
+   certificates are retrievable, whatever pending_hit is *)
+Theorem add_leaf_issuers_retrievable l hit st st' src :
+  issuer_inv st -> add_leaf sha l hit st = (st', src) -> src <> SrcIssuer ->
+  forall iss f u, In (iss, (f, u)) l ->
+  exists c, lookup_fp (sha iss) (i_store st') = Some c /\ sha c = sha iss.
+Proof.
+  unfold add_leaf. intros Hinv.
+  destruct (upload_issuers sha l st) as [st1 ok] eqn:H.
+  intros Ha Hs. inversion Ha; subst. destruct ok; [|congruence].
+  eapply issuers_retrievable; eauto.
+Qed.
+
+(* the state after add_leaf does not depend on the deduplication lookup at all *)
+Theorem add_leaf_state_independent_of_dedup l st :
+  fst (add_leaf sha l true st) = fst (add_leaf sha l false st).
+Proof. unfold add_leaf. destruct (upload_issuers sha l st). reflexivity. Qed.
+
 End Proofs.
 
 (* ---- non-vacuity: the schedule "the first Upload of every issuer fails", resubmitted ---- *)
@@ -283,6 +302,15 @@ Proof. vm_compute. repeat split. Qed.
 Example cancelled_request :
   upload_issuers toy_sha [(ca1, (false, false)); (ca0, (false, false))] st0 = (st0, false) /\
   respond (pool_step false WOk) true true = 500%Z.
+Proof. vm_compute. split; reflexivity. Qed.
+
+(* the same leaf through a second chain (ca1b instead of ca1) while the first is pending: the
+   lookup hits, and ca1b is stored all the same *)
+Definition ca1b : bytes := [x01; x04].
+Example second_chain_while_pending :
+  let st2 := mkI [toy_sha ca0; toy_sha ca1] [(toy_sha ca0, ca0); (toy_sha ca1, ca1)] in
+  let '(st3, src) := add_leaf toy_sha [(ca1b, (true, true)); (ca0, (true, true))] true st2 in
+  src = SrcDedup /\ lookup_fp (toy_sha ca1b) (i_store st3) = Some ca1b.
 Proof. vm_compute. split; reflexivity. Qed.
 
 Example issuer_inv_satisfiable : issuer_inv toy_sha st0 /\ (forall a b, toy_sha a = toy_sha b -> a = b).
